@@ -31,6 +31,22 @@ pub fn on_state(
     stats: &mut SeqStats,
     viol: &mut Vec<Violation>,
 ) {
+    let mut v = vec![];
+    if let Err(msg) = crate::common::catch(|| on_state_raw(st, cfg, sut, p, stats, &mut v)) {
+        crate::oracle::query_panic(&msg, "probe", &mut v);
+        sut.bufs.restore(&st.bytes);
+    }
+    viol.extend(v);
+}
+
+fn on_state_raw(
+    st: &State,
+    cfg: &Config,
+    sut: &Sut,
+    p: &SeqParams,
+    stats: &mut SeqStats,
+    viol: &mut Vec<Violation>,
+) {
     if p.probes.blocks {
         crate::oracle::state_blocks(&st.model, sut, viol);
         *stats.probe_evals.entry("is_free_blocks".into()).or_default() += 1;
